@@ -160,7 +160,13 @@ type StreamCore struct {
 	Turn int
 	Dyn  bool
 	Dead bool // set once the stream has ended; a later turn is a contract breach
+	// Junk, when a script says so, receives a value of a type the state codec
+	// has never heard of: from then on the state cannot be serialised (over
+	// HTTP the turn that did it cannot hand out a cursor and must fail).
+	Junk any
 }
+
+type unsealable struct{ N int }
 
 // ProdState is the producer state.
 type ProdState struct{ StreamCore }
@@ -388,6 +394,12 @@ func (c *StreamCore) step(out *vgirpc.OutputCollector, producer bool, echo int64
 	case "panic":
 		c.Dead = true
 		panic(panicValue(st.Panic, c.S.Nonce))
+	case "emitunsealable":
+		// the handler succeeds and emits, but leaves the state unserialisable
+		c.Junk = unsealable{N: c.Turn}
+		err := c.emit(out, st, echo)
+		c.Turn++
+		return err
 	case "emitpanic":
 		// fails after having emitted: the turn is still a failed turn
 		c.Dead = true
